@@ -24,7 +24,18 @@ class Size(TypedDict):
     w: int
     h: int
 
+class BoxR(TypedDict):
+    n: int
+
+class Box(BoxR, total=False):
+    s: Size
+    z: ZoneInfo
+
 """
+
+# TypedDict classes: required items, optional items (an optional item that is present is decoded, never dropped)
+TDS = {"Size": ([("w", "int"), ("h", "int")], []),
+       "Box": ([("n", "int")], [("s", "Size"), ("z", "ZoneInfo")])}
 
 # (type expression, valid inputs, default expression, reaches a NamedTuple)
 LEAVES = [
@@ -34,6 +45,8 @@ LEAVES = [
     ("ZoneInfo", ["Europe/Berlin", "UTC"], "ZoneInfo('UTC')", False),
     ("Optional[Size]", [None, {"w": 4, "h": 5}], "None", False),
     ("List[Size]", [[], [{"w": 6, "h": 7}]], "()", False),
+    ("Box", [{"n": 1}, {"n": 2, "s": {"w": 8, "h": 9}, "z": "UTC"}, {"n": 3, "z": "Europe/Berlin"}], "{'n': 0}", False),
+    ("List[Box]", [[{"n": 4, "s": {"w": 1, "h": 2}}]], "()", False),
 ]
 LEAF_JUNK = {"int": ["zz", None], "date": ["2020-13-45", 7], "ZoneInfo": ["Nowhere/Zone", 7]}
 
@@ -103,10 +116,11 @@ def ref_decode(ns, classes, leaf, expr, v):
         if not isinstance(v, dict):
             raise RefBad(expr)
         return {k: ref_decode(ns, classes, leaf, expr[10:-1], x) for k, x in v.items()}
-    if expr == "Size":
-        if not isinstance(v, dict) or "w" not in v or "h" not in v:
+    if expr in TDS:
+        req, opt = TDS[expr]
+        if not isinstance(v, dict) or any(k not in v for k, t in req):
             raise RefBad(expr)
-        return {"w": ref_decode(ns, classes, leaf, "int", v["w"]), "h": ref_decode(ns, classes, leaf, "int", v["h"])}
+        return {k: ref_decode(ns, classes, leaf, t, v[k]) for k, t in req + opt if k in v}
     if expr in classes:
         if not isinstance(v, dict):
             raise RefBad(expr)
@@ -138,8 +152,10 @@ def paths(expr, classes, v, here=()):
     elif expr.startswith("Dict[str, "):
         for k, x in v.items():
             out += paths(expr[10:-1], classes, x, here + (k,))
-    elif expr == "Size":
-        out += [(here + ("w",), "int"), (here + ("h",), "int")]
+    elif expr in TDS:
+        for k, t in TDS[expr][0] + TDS[expr][1]:
+            if k in v:
+                out += paths(t, classes, v[k], here + (k,))
     elif expr in classes:
         for n_, t, d in classes[expr]:
             if n_ in v:
